@@ -236,18 +236,24 @@ def run(tier, seed, replay):
             full = P.header(nm) + "\n" + t
             rare += [{"op": "pipeline", "text": full, "name": nm, "timeout": 5},
                      {"op": "pipeline", "text": full.rstrip("\n"), "name": nm, "timeout": 5}]
+    # ... and statements whose bracket is never closed, followed by further lines
+    nrare = len(rare)
+    for t in P.unbalanced_units():
+        rare.append({"op": "pipeline", "text": P.header("a.c") + "\n" + t, "name": "a.c", "timeout": 5})
     for tk, r in zip(rare, native_batch(rare)):
         cases += 1
         if r["exc"]:
             by_site.setdefault((r["exc"], r.get("exc_site")), {
                 "exc": r["exc"], "site": r.get("exc_site"), "task": {"op": "one", "text": tk["text"], "name": tk["name"]},
-                "what": f"legal C {tk['text'][-60:]!r} as {tk['name']}: exc:{r['exc']}@{r.get('exc_site')} ({r.get('exc_line')})"})
+                "what": f"{'legal C' if rare.index(tk) < nrare else 'unclosed bracket'} {tk['text'][-60:]!r} as {tk['name']}: "
+                        f"exc:{r['exc']}@{r.get('exc_site')} ({r.get('exc_line')})"})
     chk.add_bounded("Lexer + Registry.run (whole pipeline) with a watchdog",
                     "every token-prefix (with / without the final newline) and single-token deletion / duplication of "
                     "the sample files ends in a verdict or a CParsingError",
                     f"{len(files)} files x every {'1st' if thorough else '6th'} token boundary x 2 (with / without final "
                     f"newline) + {12 if thorough else 3} token edits x 2; {len(P.RARE_C)} translation units of less common "
-                    "legal C x {.c, .h} x {with, without final newline}",
+                    f"legal C x {{.c, .h}} x {{with, without final newline}}; {len(P.unbalanced_units())} statements with a "
+                    "bracket that is never closed, followed by further lines",
                     cases, list(by_site.values()), nontrivial=cases,
                     samples=[{"site": f"{k[0]}@{k[1]}"} for k in list(by_site)[:3]], time_s=time.time() - t0)
     for (exc, site), v in sorted(by_site.items(), key=lambda kv: str(kv[0])):
